@@ -394,13 +394,13 @@ def parse_facebook_url(url, allow_relative_urls=False):
 
             group_id_or_handle = parts[1]
 
-            if NUMERIC_ID_RE.match(group_id_or_handle):
+            if is_facebook_id(group_id_or_handle):
                 return FacebookPost(parts[3], group_id=group_id_or_handle)
             return FacebookPost(parts[3], group_handle=group_id_or_handle)
 
         parent_id_or_handle = parts[0]
 
-        if NUMERIC_ID_RE.match(parent_id_or_handle):
+        if is_facebook_id(parent_id_or_handle):
             return FacebookPost(parts[2], parent_id=parent_id_or_handle)
 
         return FacebookPost(parts[2], parent_handle=parent_id_or_handle)
